@@ -681,14 +681,20 @@ func applyLayout(r *gitrepo.Repo, layout string) error {
 func materialiseCase(dir string, sc *cases.ScanCase) (*gitrepo.Repo, error) {
 	spec := gitrepo.Spec{G: sc.G, Names: sc.Names, Dates: sc.Dates, OmitEmptyTree: sc.OmitEmptyTree,
 		Bare: sc.Bare, ExtraHeaders: sc.Extra}
-	for _, rt := range sc.Roots {
-		if rt.IsRef {
-			spec.Refs = append(spec.Refs, gitrepo.Ref{Name: rt.Name, Target: rt.O})
-		}
-	}
 	r, err := gitrepo.Materialise(dir, spec)
 	if err != nil {
 		return nil, err
+	}
+	for _, rt := range sc.Roots {
+		if rt.IsRef {
+			hx := r.Hex[rt.O]
+			if hx == "" {
+				return nil, fmt.Errorf("ref %s: unknown target %s", rt.Name, rt.O)
+			}
+			if err := gitrepo.WriteRef(r.GitDir, expandPlaceholders(rt.Name, r), hx); err != nil {
+				return nil, err
+			}
+		}
 	}
 	if sc.Noise {
 		if err := addNoise(r); err != nil {
